@@ -83,12 +83,12 @@ def run(ctx):
     reg = Registry(ix)
     if reg.problems:
         raise AnalysisError('registry scan: ' + '; '.join(reg.problems))
-    rule_a(ctx, ix)
-    classes = rule_b(ctx, ix, reg)
-    rule_c(ctx, ix, reg, classes)
-    rule_d(ctx, ix, reg, classes)
-    rule_e(ctx, ix, reg, classes)
-    rule_f(ctx, ix)
+    ctx.guard(rule_a, ctx, ix)
+    classes = ctx.guard(rule_b, ctx, ix, reg)
+    ctx.guard(rule_c, ctx, ix, reg, classes)
+    ctx.guard(rule_d, ctx, ix, reg, classes)
+    ctx.guard(rule_e, ctx, ix, reg, classes)
+    ctx.guard(rule_f, ctx, ix)
 
 
 # ---------------------------------------------------------------------------------------
